@@ -435,11 +435,14 @@ func seqOfMake(ms *ssa.MakeSlice) ([]SeqElem, bool) {
 						continue
 					}
 					src := callArgs(c)[1]
-					// copy fills min(len(dst), len(src)); require len(dst) == len(src)
-					if hi.add(lo.scale(-1)).String() != affSym("len("+desc(src)+")").String() {
+					// copy fills min(len(dst), len(src)) elements: all of src when len(dst) - len(src) is a known
+					// non-negative constant (`copy(buf[1:], src)` into a buffer of len(src)+2)
+					srcLen := affSym("len(" + desc(src) + ")")
+					room := hi.add(lo.scale(-1)).add(srcLen.scale(-1))
+					if !room.isConst() || room.C < 0 {
 						return nil, false
 					}
-					ws = append(ws, write{lo, hi, SeqElem{Kind: "spread", D: desc(src), V: src}})
+					ws = append(ws, write{lo, lo.add(srcLen), SeqElem{Kind: "spread", D: desc(src), V: src}})
 				}
 			}
 		}
